@@ -44,7 +44,7 @@ package dns
 //@   opt no-safety
 //@   requires co != nil
 //@   ensures some: ret1 == nil ==> ret0 != nil
-//@ func (*Client).ExchangeWithConnContext [C12]
+//@ func (*Client).ExchangeWithConnContext [C12 C11:creds]
 //@   opt no-safety
 //@   requires c != nil && m != nil && co != nil
 //@   exit id: err == nil ==> r != nil && r.Id == m.Id
@@ -57,6 +57,8 @@ package dns
 // pushes the read deadline out ("until the matching one or the deadline arrives")
 //@   callsite "SetReadDeadline" fixed: !called("WriteMsg") && !called("ReadMsg")
 //@   callsite "SetWriteDeadline" fixedw: !called("WriteMsg") && !called("ReadMsg")
+// the connection works with this client's TSIG credentials, whatever an earlier user of the connection left on it
+//@   callsite "WriteMsg" creds: co.TsigProvider == c.TsigProvider && co.TsigSecret == c.TsigSecret [C11 C12]
 //@   callsite "WriteMsg" query: arg0 == co && arg1 == m
 //@   callsite "ReadMsg" after: arg0 == co && called("WriteMsg") && callres("WriteMsg") == nil
 //@   exit werr: called("WriteMsg") && callres("WriteMsg") != nil ==> err != nil && r == nil
